@@ -344,8 +344,17 @@ func runC05(c *Ctx) {
 					ok, d = false, "the loop over the slots is not an ascending index loop from 0 with step 1"
 					// (a) range over the table itself
 					if s2, asc := ascendingIndexOver(ia.Index); asc {
-						if _, resliced := s2.(*ssa.Slice); resliced {
-							d = "the concatenation runs over a re-slice of the part table: the parts behind it are dropped from the completed message"
+						if sl, resliced := s2.(*ssa.Slice); resliced {
+							// table[:total] with the total the completion test compared with is the whole transfer
+							lowOK := sl.Low == nil
+							if k, isK := constInt(sl.Low); isK && k == 0 {
+								lowOK = true
+							}
+							if lowOK && total != nil && sl.High == total {
+								ok, d = true, ""
+							} else {
+								d = "the concatenation runs over a re-slice of the part table: the parts behind it are dropped from the completed message"
+							}
 						} else {
 							ok, d = true, ""
 						}
